@@ -5,7 +5,7 @@
    scheduling program, every fuel, and both ways the loop can end (idle / stopped). *)
 From Coq Require Import List ZArith.
 Import ListNotations.
-From TV Require Import C38.Model C38.Spec C38.Proofs.
+From TV Require Import Lib.Obs C38.Model C38.Spec C38.Monitor C38.Run C38.Proofs C38.Bounded.
 Local Open Scope Z_scope.
 
 (* add_callback: at any end of the loop the callbacks that ran are a prefix of those scheduled, in
@@ -24,26 +24,34 @@ Theorem C38_callbacks_run_exactly_once_in_order :
 Proof. exact callbacks_exactly_once_in_order. Qed.
 Print Assumptions C38_callbacks_run_exactly_once_in_order.
 
-(* timeouts: no timeout runs twice; when timeout j runs it has not been removed, it was scheduled
-   with some deadline d that is not after the loop's clock, and no other pending (scheduled, not run,
-   not removed) timeout has a strictly earlier effective deadline w = max(deadline, clock at the call);
-   the effective deadline in the trace is that maximum; instance ids identify one call. *)
+(* timeouts: no timeout runs twice; when timeout j runs it has not been removed, it was scheduled with a
+   deadline d that is not after the loop's clock, and every other pending (scheduled, not run, not removed)
+   timeout i that was scheduled before the current iteration began (old_ids: before the last iteration mark)
+   has a REQUESTED deadline di >= d: timeouts run in requested-deadline order, overdue ones included, ties
+   unordered.  (A timeout scheduled by a callback of the very iteration that already collected j from the heap
+   cannot overtake j: see Bounded.v, a_timeout_scheduled_during_an_iteration_does_not_overtake_collected_ones.)
+   Instance ids identify one call. *)
 Theorem C38_timeouts_once_not_early_in_deadline_order_never_after_removal :
   forall c s0 fuel s e, init_of c = Some s0 -> run_loop fuel s0 = (s, e) -> e <> OutOfFuel ->
     NoDup (runs RTo (ctr s)) /\
     (forall tr1 j l tr2, ctr s = tr1 ++ ERun j RTo l :: tr2 ->
        ~ In (ERm j) tr1 /\ ~ In j (runs RTo tr1) /\
-       exists d w, In (ESt j d w) tr1 /\ d <= clock_of tr1 /\
-         forall i di wi, In (ESt i di wi) tr1 -> ~ In i (runs RTo tr1) -> ~ In (ERm i) tr1 -> w <= wi) /\
-    (forall tr1 i d w tr2, ctr s = tr1 ++ ESt i d w :: tr2 -> w = Z.max (clock_of tr1) d) /\
-    (forall i d w d' w', In (ESt i d w) (ctr s) -> In (ESt i d' w') (ctr s) -> d = d' /\ w = w').
+       exists d, In (ESt j d) tr1 /\ d <= clock_of tr1 /\
+         forall i di, In (ESt i di) tr1 -> In i (old_ids tr1) ->
+                      ~ In i (runs RTo tr1) -> ~ In (ERm i) tr1 -> d <= di) /\
+    (forall i d d', In (ESt i d) (ctr s) -> In (ESt i d') (ctr s) -> d = d').
 Proof. exact timeouts_safety. Qed.
 Print Assumptions C38_timeouts_once_not_early_in_deadline_order_never_after_removal.
+
+(* old_ids / young_ids partition the scheduled timeouts at the last iteration mark, in schedule order *)
+Theorem C38_old_young_partition : forall tr, old_ids tr ++ young_ids tr = st_ids tr.
+Proof. exact old_young_partition. Qed.
+Print Assumptions C38_old_young_partition.
 
 (* when the loop runs until idle every scheduled timeout either ran or was removed *)
 Theorem C38_timeouts_run_unless_removed :
   forall c s0 fuel s, init_of c = Some s0 -> run_loop fuel s0 = (s, Idle) ->
-    forall i d w, In (ESt i d w) (ctr s) -> In i (runs RTo (ctr s)) \/ In (ERm i) (ctr s).
+    forall i d, In (ESt i d) (ctr s) -> In i (runs RTo (ctr s)) \/ In (ERm i) (ctr s).
 Proof. exact timeouts_complete. Qed.
 Print Assumptions C38_timeouts_run_unless_removed.
 
@@ -54,3 +62,79 @@ Theorem C38_threads_fifo_for_every_interleaving :
     forall t, of_thread t (arrivals_run_order arrivals) = of_thread t arrivals.
 Proof. intro a. split; [apply arrivals_run_order_id|intro; apply threads_per_thread_order]. Qed.
 Print Assumptions C38_threads_fifo_for_every_interleaving.
+
+(* exceptions: whenever a callback instance ends by raising (and is not run_sync's own function, whose
+   exception goes to the returned future), the very next event is the "Exception in callback" log record
+   for that instance; and a log record only ever follows such a raise.  Together with the theorems above
+   (which hold for every program, raising callbacks included) the loop goes on with the rest of the schedule.
+   Holds at every end of the loop, for any fuel. *)
+Theorem C38_exceptions_are_logged_and_nothing_else_is :
+  forall c s0 fuel s e, init_of c = Some s0 -> run_loop fuel s0 = (s, e) ->
+    (forall tr1 i x tr2, ctr s = tr1 ++ EEnd i (EndRaise x) :: tr2 -> last_kind tr1 <> Some RFn ->
+       exists tr3, tr2 = ELog i :: tr3) /\
+    (forall tr1 i tr2, ctr s = tr1 ++ ELog i :: tr2 -> exists tr0 x, tr1 = tr0 ++ [EEnd i (EndRaise x)]).
+Proof. exact errors_logged. Qed.
+Print Assumptions C38_exceptions_are_logged_and_nothing_else_is.
+
+(* add_future: a callback registered with add_future(f, cb) starts only after an iteration boundary that
+   follows the add_future call AND an iteration boundary that follows the resolution of f; a future is
+   resolved at most once. *)
+Theorem C38_add_future_callbacks_run_on_a_later_iteration :
+  forall c s0 fuel s e, init_of c = Some s0 -> run_loop fuel s0 = (s, e) -> e <> OutOfFuel ->
+    (forall tr1 i l tr2, ctr s = tr1 ++ ERun i RFut l :: tr2 ->
+       exists f, aged_after (EAf i f) tr1 /\ exists how v, aged_after (ERs f how v) tr1) /\
+    (forall tr1 f how v tr2, ctr s = tr1 ++ ERs f how v :: tr2 -> ~ resolved f tr1).
+Proof. exact future_callbacks_later_iteration. Qed.
+Print Assumptions C38_add_future_callbacks_run_on_a_later_iteration.
+
+(* the final state of every future is the (unique) resolution recorded in the trace *)
+Theorem C38_future_state_matches_trace :
+  forall c s0 fuel s e, init_of c = Some s0 -> run_loop fuel s0 = (s, e) -> e <> OutOfFuel ->
+    forall f, match fget (futs s) f with
+              | FPending _ => ~ resolved f (ctr s)
+              | FOk (Some v) => In (ERs f 0 v) (ctr s)
+              | FExc (XUser y) => In (ERs f 1 y) (ctr s)
+              | FCancelled => In (ERs f 2 0) (ctr s)
+              | _ => False
+              end.
+Proof. exact future_state_matches_trace. Qed.
+Print Assumptions C38_future_state_matches_trace.
+
+(* run_sync, PARTIAL.  Full statement wanted: "run_sync returns the value the function's future was resolved
+   with, re-raises the exception it was resolved with (or that the function raised), or raises TimeoutError
+   after cancelling the future, and only when the timeout elapsed first".  Proved here: when the cell holds
+   the future f returned by the function, the result is exactly what the trace says about f (value v only if
+   f was resolved with v, exception y only if resolved with y, TimeoutError only after the timeout callback
+   ran and f is cancelled-or-unresolved).  NOT proved in general: that the cell is the function's outcome,
+   that TimeoutError implies f was actually cancelled, and the timing; these are checked by the monitor
+   sync_ok on every correspondence case and proved for the small scope below. *)
+Theorem C38_run_sync_result_partial :
+  forall b timeout fuel s e, run_loop fuel (init_sync b timeout) = (s, e) -> e <> OutOfFuel ->
+    forall f, cell s = Some (CUser f) ->
+      match sync_result_of s e with
+      | RRet (Some v) => In (ERs f 0 v) (ctr s)
+      | RExc (XUser y) => In (ERs f 1 y) (ctr s)
+      | RTimeout => tcalled s = true /\ (In (ERs f 2 0) (ctr s) \/ ~ resolved f (ctr s))
+      | RStopped | RIdle => tcalled s = false /\ (In (ERs f 2 0) (ctr s) \/ ~ resolved f (ctr s))
+      | _ => False
+      end.
+Proof. exact run_sync_result_vs_trace. Qed.
+Print Assumptions C38_run_sync_result_partial.
+
+(* the former finding, now fixed in /repo (call_at no longer clamps overdue deadlines): the witness program
+   call_later(10, f), f = [add_timeout(T0+8, a); add_timeout(T0+5, b)] runs b before a. *)
+Theorem C38_overdue_timeouts_run_in_requested_deadline_order_witness :
+  exists s, run_loop 20 (init_prog overdue_witness) = (s, Idle) /\
+    ctr s = [ESc 0; EIt 0; ERun 0 RCb 0; ESt 1 10; EEnd 0 EndNone; EIt 10; ERun 1 RTo 1; ESt 2 8; ESt 3 5;
+             EEnd 1 EndNone; EIt 10; ERun 3 RTo 0; EEnd 3 EndNone; ERun 2 RTo 0; EEnd 2 EndNone].
+Proof. exact overdue_timeouts_run_in_requested_deadline_order. Qed.
+Print Assumptions C38_overdue_timeouts_run_in_requested_deadline_order_witness.
+
+(* BOUNDED: the model's observable passes the trace monitor check_case (the checker applied to the REAL loop's
+   traces) for every IOLoop program with at most 2 top-level ops over a 28-op alphabet and every run_sync call
+   of such a function with 4 outcomes x 4 timeouts (13821 inputs, swept by vm_compute); in particular all of
+   them run to completion within fuel_for.  The general statement (all programs) is not proved. *)
+Theorem C38_model_passes_monitor_small_scope_partial :
+  forall c, In c small_inputs -> check_case c (run_case c) = true.
+Proof. apply forallb_forall. exact model_passes_monitor_small_scope. Qed.
+Print Assumptions C38_model_passes_monitor_small_scope_partial.
